@@ -39,7 +39,7 @@ func ruleJSONCodec(w *World, r *Report, pkg *ssa.Package, tag string) {
 				"uses "+name+": a second way of encoding/decoding values (other escaping, indentation or number handling) — plain and coloured, hunk and document renderings no longer agree byte for byte")
 		})
 	}
-	if n < 8 {
+	if n < 5 {
 		r.Bad(rule, tag+":instance-floor", "-", fmt.Sprintf("only %d calls into encoding/json / yaml.v2 found", n))
 	}
 	// value references (method values, function values passed around)
@@ -417,5 +417,37 @@ func rulePathTab(w *World, r *Report, pkg *ssa.Package) {
 		}
 		r.Check(ok, rule, "v2.Path:"+kind, w.Pos(jn.Pos()), fmt.Sprintf("%s is written as a %s (empty=%v) and NewPath reads that shape back as %s", kind, sh.node, sh.empty, kind),
 			fmt.Sprintf("%s is written as a %s (empty=%v) but NewPath does not read that shape back as %s (reads %v)", kind, sh.node, sh.empty, kind, rd[sh.node]))
+	}
+}
+
+// ruleRenderIdentity: renderJson / renderYaml return exactly the bytes the
+// codec produced.
+func ruleRenderIdentity(w *World, r *Report, pkg *ssa.Package) {
+	const rule = "R-CODEC"
+	for _, rn := range []struct{ fn, codec string }{{"renderJson", "encoding/json.Marshal"}, {"renderYaml", "gopkg.in/yaml.v2.Marshal"}} {
+		fn := w.Func(pkg, rn.fn)
+		r.Fn(fnName(fn))
+		ok := true
+		why := ""
+		n := 0
+		for _, ret := range returnsOf(fn) {
+			n++
+			cv, isCv := ret.Results[0].(*ssa.Convert)
+			if !isCv {
+				ok, why = false, "returns "+valueName(ret.Results[0])
+				continue
+			}
+			ex, isEx := cv.X.(*ssa.Extract)
+			if !isEx || ex.Index != 0 {
+				ok, why = false, "returns a conversion of "+valueName(cv.X)
+				continue
+			}
+			c, isC := ex.Tuple.(*ssa.Call)
+			if !isC || calleeFullName(c) != rn.codec || strip(c.Call.Args[0]) != ssa.Value(fn.Params[0]) {
+				ok, why = false, "returns the output of something other than "+rn.codec+" of its argument"
+			}
+		}
+		r.Check(ok && n > 0, rule, fnName(fn)+":returns-codec-output", w.Pos(fn.Pos()), rn.fn+" returns string(bytes) of "+rn.codec+", untransformed",
+			rn.fn+" alters the codec's output ("+why+"): what is written is no longer what the codec reads back")
 	}
 }
